@@ -8,7 +8,7 @@ sd=$(readlink -f "$1")
 d=/var/tmp/imverif-seed-$$
 rm -rf "$d"; mkdir -p "$d"; rsync -a --exclude .git /repo/ "$d/"; (cd "$d" && git init -q .)
 place=$(python3 -c "import json,sys;m=json.load(open('$sd/meta.json'));print(m['demo_place'].split()[0])")
-cmd=$(python3 -c "import json,re,sys;m=json.load(open('$sd/meta.json'));c=m['demo_cmd'];c=re.sub(r'/tmp/wt(?:[2-9]|10)?-C\d+','$d',c);print(c)")
+cmd=$(python3 -c "import json,re,sys;m=json.load(open('$sd/meta.json'));c=m['demo_cmd'];c=re.sub(r'/tmp/wt\d*-C\d+','$d',c);print(c)")
 demo=$(ls "$sd"/demo* | head -1)
 res="{"
 ( cd "$d" && git apply "$sd/patch.diff" ) && res="$res\"applies\":true," || { echo "{\"applies\":false}"; rm -rf "$d"; exit 1; }
